@@ -16,6 +16,7 @@ import (
 )
 
 type goComp struct {
+	strs  map[string]bool // Go expressions of type []string (indexing yields a string, not a byte)
 	ex    *Exec
 	vars  map[string]string // spec name -> Go expression
 	fail  string
@@ -119,7 +120,11 @@ func (g *goComp) comp(e SExpr) string {
 	case *SCond:
 		return "func() interface{} { if " + g.comp(x.C) + " { return " + g.comp(x.A) + " }; return " + g.comp(x.B) + " }()"
 	case *SIndex:
-		return "int(" + g.comp(x.X) + "[" + g.comp(x.I) + "])"
+		b := g.comp(x.X)
+		if g.strs[b] || strings.HasSuffix(b, ".Args") {
+			return b + "[" + g.comp(x.I) + "]"
+		}
+		return "int(" + b + "[" + g.comp(x.I) + "])"
 	case *SSliceE:
 		lo, hi := "", ""
 		if x.Lo != nil {
@@ -151,22 +156,45 @@ func (g *goComp) comp(e SExpr) string {
 		}
 		return r
 	case *SQuant:
-		if len(x.Vars) != 1 || x.Vars[0].Type != "int" {
-			return g.bad("quantifier over %v", x.Vars)
+		for _, qv := range x.Vars {
+			if qv.Type != "int" {
+				return g.bad("quantifier over %v", x.Vars)
+			}
 		}
-		v := x.Vars[0].Name
-		saved, had := g.vars[v]
-		g.vars[v] = v
+		if len(x.Vars) > 2 {
+			return g.bad("quantifier over %d variables", len(x.Vars))
+		}
+		hi := "80"
+		if len(x.Vars) == 2 {
+			hi = "24"
+		}
+		type sv struct {
+			s   string
+			had bool
+		}
+		saved := map[string]sv{}
+		for _, qv := range x.Vars {
+			o, had := g.vars[qv.Name]
+			saved[qv.Name] = sv{o, had}
+			g.vars[qv.Name] = qv.Name
+		}
 		body := g.comp(x.Body)
-		if had {
-			g.vars[v] = saved
-		} else {
-			delete(g.vars, v)
+		for _, qv := range x.Vars {
+			if saved[qv.Name].had {
+				g.vars[qv.Name] = saved[qv.Name].s
+			} else {
+				delete(g.vars, qv.Name)
+			}
+		}
+		loops, closes := "", ""
+		for _, qv := range x.Vars {
+			loops += "for " + qv.Name + " := -2; " + qv.Name + " <= " + hi + "; " + qv.Name + "++ { "
+			closes += " }"
 		}
 		if x.Kind == "forall" {
-			return "func() bool { for " + v + " := -2; " + v + " <= 80; " + v + "++ { if !(" + body + ") { return false } }; return true }()"
+			return "func() bool { " + loops + "if !(" + body + ") { return false }" + closes + "; return true }()"
 		}
-		return "func() bool { for " + v + " := -2; " + v + " <= 80; " + v + "++ { if " + body + " { return true } }; return false }()"
+		return "func() bool { " + loops + "if " + body + " { return true }" + closes + "; return false }()"
 	case *SCall:
 		switch x.Fn {
 		case "len":
@@ -183,8 +211,11 @@ func (g *goComp) comp(e SExpr) string {
 		}
 		if sf := g.ex.V.db.SpecFns[x.Fn]; sf != nil && sf.Body != nil && len(sf.Params) == len(x.Args) {
 			var ps, as []string
-			inner := &goComp{ex: g.ex, vars: map[string]string{}, depth: g.depth}
+			inner := &goComp{ex: g.ex, vars: map[string]string{}, depth: g.depth, strs: map[string]bool{}}
 			for i, p := range sf.Params {
+				if p.Type == "[]string" {
+					inner.strs[p.Name] = true
+				}
 				gt, ok := goType(p.Type)
 				if !ok {
 					return g.bad("parameter type %s of %s", p.Type, x.Fn)
@@ -225,7 +256,11 @@ func (ex *Exec) goPostCheck(o *Obligation) string {
 	}
 	g := &goComp{ex: ex, vars: map[string]string{}}
 	fn := ex.fn
+	g.strs = map[string]bool{}
 	for i, p := range fn.Params {
+		if p.Type().String() == "[]string" {
+			g.strs[fmt.Sprintf("a%d", i)] = true
+		}
 		g.vars[p.Name()] = fmt.Sprintf("a%d", i)
 		switch p.Type().Underlying().String() {
 		case "string", "int", "bool":
@@ -234,6 +269,9 @@ func (ex *Exec) goPostCheck(o *Obligation) string {
 	}
 	res := fn.Signature.Results()
 	for i := 0; i < res.Len(); i++ {
+		if res.At(i).Type().String() == "[]string" {
+			g.strs[fmt.Sprintf("r%d", i)] = true
+		}
 		if n := res.At(i).Name(); n != "" && n != "_" {
 			g.vars[n] = fmt.Sprintf("r%d", i)
 		}
